@@ -172,6 +172,7 @@ func (s *scanner) Next() (lexeme.LexEvent, error) {
 		c := s.data.Byte(s.index)
 		s.index++
 
+		verifScanStep(s.step, c, int(s.index)-1, int(s.dataSize))
 		_, err := s.step(c)
 		if err != nil {
 			return lexeme.LexEvent{}, err
